@@ -32,6 +32,32 @@ claimed.update({
   note="encoding/json is stubbed under the engine (fails or overwrites the target arbitrarily) and real in the native replay; the BESS/UP4 AddSliceInfo implementations are exercised in the plug-in harnesses.",
   ref="DESIGN.md 6.19"),
 })
+claimed.update({
+ "C01": dict(
+  text="Bounded model checking: for each of the ten message types HandlePFCPMsg dispatches, a datagram is serialised from a valid baseline IE tree with one (quick) or two (thorough) structural mutations at any IE of the tree (drop, duplicate, empty, truncate, retype, arbitrary first byte, first byte only, arbitrary payload / truncated flow description), injected before/after association and before/after an accepted establishment into the real message.Parse + dispatch + handlers; arbitrary raw datagrams of <= 9 (quick) / 14 (thorough) bytes are explored too. Every Go run-time panic, process exit, blocked channel operation or second response on any path is a violation; a valid heartbeat afterwards must be answered.",
+  note="Outside: long raw byte strings with symbolic length fields (go-pfcp offset arithmetic), goroutines the handlers start, schedules. The datapath is a fake that accepts. Fixed defects found by this check are listed in known_findings.json.",
+  ref="DESIGN.md 6.1"),
+ "C05": dict(
+  text="Bounded model checking of session teardown: establishment (accepted, rejected by parsing, rejected by the datapath), optional modification (create with/without CHOOSE, update, remove) and each of the four ways a session ends are executed symbolically through the real handlers, Shutdown, RemoveSession, IPPool and FTEIDGenerator against a fake datapath whose table image is kept by the harness; the solver decides on every path that no rule, session record, gauge unit, TEID or UE address is left, and that more attach/detach cycles than the pool has addresses all succeed.",
+  note="Generic fake datapath (the plug-ins' own release logic is C04/C15/C03); 1 session, history <= 3 requests; concurrent teardown triggers are C10.",
+  ref="DESIGN.md 6.5"),
+ "C08": dict(
+  text="Bounded model checking over token atoms: parseFlowDesc/parseNet/parsePort/parseSDFFilter are executed on a flow description that is an arbitrary sequence of <= 8 (quick) / 10 (thorough) arbitrary tokens; a reference recogniser of the canonical grammar over the same tokens decides acceptance, endpoint networks, ports, protocol, orientation by source interface and the documented port workaround; refused text must keep the UE-address pre-fill. PFD management (replace on accept, rollback on every reject exit) and parseApplicationID (direction keyword, verbatim copy, tolerated bad flow) are explored on tables drawn from five flow descriptions.",
+  note="strings.Fields/Split, strconv.ParseUint, net.ParseCIDR on atoms are uninterpreted functions under their documented contracts (trusted standard library); counterexamples are inverted to concrete text and replayed natively.",
+  ref="DESIGN.md 6.8"),
+ "C12": dict(
+  text="Bounded model checking of the sequential logic: sendPFCPRequestMessage under every loss pattern (k-th transmission answered or none, retries 0..3 quick / 0..8 thorough), handleIncomingResponse for matching/wrong/duplicate sequence numbers, handleHeartbeatRequest in every association state with every reset-channel backlog, handleAssociationSetupRequest for all 8 feature configurations x datapath up/down, getSeqNum for all counters.",
+  note="Narrowed: spacing by resp_timeout, the ticker, tryConnectToN4Peers and 'peer dead => sessions removed' are outside (Request.GetResponse is a plan stub under the engine; the native replay runs the real timer code with a peer goroutine).",
+  ref="DESIGN.md 6.12"),
+ "C13": dict(
+  text="Bounded model checking of handleDigestReport on a store holding an arbitrary session (1..2 PDRs of either direction, 0..2 FARs with arbitrary Apply Action): nothing is sent for unknown sessions, sessions without downlink PDR or whose downlink FAR does not ask (or does not exist); otherwise exactly one Session Report Request with the CP SEID, a fresh sequence number and the downlink PDR id.",
+  note="The rate limiter (notifier.go) depends on the wall clock; its harness is registered only when the clock overlay is in place (see DESIGN.md); the UP4 digest loop and BESS socket reader are outside.",
+  ref="DESIGN.md 6.13"),
+ "C14": dict(
+  text="Bounded model checking of end-marker emission: a session with two downlink FARs on arbitrary tunnels receives a modification with 1..2 (quick) / 1..3 (thorough) Update FARs (target found/unknown, arbitrary new tunnel, arbitrary PFCPSMReq-Flags byte or none), feature on/off, datapath accept/reject; the solver decides the number of markers, their destination (tunnel before that update), TEID, source, UDP ports, GTP type and that they are handed to the datapath after the update was programmed.",
+  note="gopacket.SerializeLayers is stubbed under the engine (layer structs recorded) and real in the native replay (packet bytes decoded); the transports of SendEndMarkers are outside.",
+  ref="DESIGN.md 6.14"),
+})
 pending = {}
 na = {
  "C10": "every clause quantifies over goroutine interleavings of teardown triggers and bounded-time termination; a sequential SSA-to-SMT executor cannot encode Go's scheduler, select and timers (DESIGN.md 6.10)",
